@@ -194,10 +194,18 @@ package system
 //@   assigns ghost.execErr
 //@   ensures X1: ghost.execErr == err
 
+// Translation of an rtnetlink address message into a system.IP (C13/C14: the
+// eligibility and ranking of wildcard expansion read these flags): each flag is
+// its own kernel bit, ValidForever is the *valid* lifetime being infinite.
+//@ macro amOf(m) = as(m, "*rtnetlink.AddressMessage")
+//@ macro ipFrom(ip, m) = ip.Deprecated == (bitand(amOf(m).Attributes.Flags, 32) != 0) && ip.ManageTemporaryAddresses == (bitand(amOf(m).Attributes.Flags, 256) != 0) && ip.StablePrivacy == (bitand(amOf(m).Attributes.Flags, 2048) != 0) && ip.Temporary == (bitand(amOf(m).Attributes.Flags, 1) != 0) && ip.Tentative == (bitand(amOf(m).Attributes.Flags, 64) != 0) && ip.ValidForever == (amOf(m).Attributes.CacheInfo.Valid == 4294967295)
 //@ func (*addresser).AddressesByIndex
 //@   requires P1: a != nil && a.execute != nil && 0 <= index && index <= 4294967295
 //@   opt preserves heap(system.addresser), mem(net.Interface)
 //@   loop 1 invariant L0: ghost.execErr == nil
+//@   loop 1 invariant T1 [C13,C14]: len(addrs) == rangeindex + 1 && (addrs == nil || fresh(addrs)) && forall(k, 0, len(addrs), ipFrom(addrs[k], msgs[k]))
+//@   opt nobreak [C13,C14]
+//@   ensures E3 [C13,C14]: result1 == nil ==> len(result0) == len(msgs) && forall(k, 0, len(result0), ipFrom(result0[k], msgs[k]))
 //@   assigns everything
 //@   ensures E1 [C13,C14]: ghost.execErr != nil ==> result1 != nil && len(result0) == 0
 //@   ensures E2 [C13,C14]: result1 != nil ==> result1 == ghost.execErr
